@@ -459,9 +459,15 @@ pub fn c14(tier: Tier) -> i32 {
     let res = util::par_map(sels.len() + 1, |i| {
         let root = scratch("c14");
         let corpus = root.join("corpus");
-        std::fs::create_dir_all(&corpus).unwrap();
-        for (n, s) in &srcs {
-            std::fs::write(corpus.join(format!("{}.sol", n)), s).unwrap();
+        std::fs::create_dir_all(corpus.join("nested").join("deeper")).unwrap();
+        // the corpus is spread over three directory levels: "exactly the listed patterns are analysed" at every depth
+        for (k, (n, s)) in srcs.iter().enumerate() {
+            let d = match k % 3 {
+                0 => corpus.clone(),
+                1 => corpus.join("nested"),
+                _ => corpus.join("nested").join("deeper"),
+            };
+            std::fs::write(d.join(format!("{}.sol", n)), s).unwrap();
         }
         let cwd = root.join("cwd");
         std::fs::create_dir_all(&cwd).unwrap();
